@@ -74,7 +74,11 @@ def extract(root='/repo', std='c++14', scratch=None, extra_tus=()):
             return d
         with ThreadPoolExecutor(max_workers=16) as ex:
             tus = list(ex.map(one, srcs))
-        return Program(tus, root)
+        prog = Program(tus, root)
+        from . import normalise
+        prog.inlined = normalise.inline_local_helpers(prog)
+        prog.range_loops = normalise.canonical_range_for(prog)
+        return prog
     finally:
         if own:
             shutil.rmtree(scratch, ignore_errors=True)
@@ -329,6 +333,84 @@ def constructs(fn_or_body, into_lambdas=True):
         for e in ctor_init_exprs(fn_or_body):
             if e.get('k') == 'Construct':
                 yield e
+
+
+def exchanges(body):
+    """Exchange idioms anywhere under statement/function `body`: yields (a, b, anchor, stmts) with a, b the two
+    exchanged lvalue expressions, anchor the node to locate the exchange by (the std::swap call or the first of the
+    three statements) and stmts the statements making it up.  Recognised: std::swap(a, b), std::iter_swap-free
+    three-assignment form  T t = a; a = b; b = t;  (t a fresh local or an earlier declared local)."""
+    root = body.body if isinstance(body, Function) else body
+    for st in walk_stmts(root):
+        for e in stmt_exprs(st):
+            for n in walk_expr(e, into_lambdas=False):
+                if n.get('k') == 'Call' and (n.get('callee') or {}).get('q') == 'std::swap' and len(n.get('args', [])) == 2:
+                    yield strip_casts(n['args'][0]), strip_casts(n['args'][1]), n, [st]
+        if st['k'] != 'Compound':
+            continue
+        seq = st['body']
+        for i in range(len(seq) - 2):
+            s0, s1, s2 = seq[i], seq[i + 1], seq[i + 2]
+            tname = tval = None
+            if s0['k'] == 'Decl' and len(s0['decls']) == 1 and s0['decls'][0].get('init') is not None:
+                tname, tval = s0['decls'][0]['name'], _unwrap_copy(s0['decls'][0]['init'])
+            elif s0['k'] == 'Expr' and strip(s0['e']).get('k') == 'Bin' and strip(s0['e'])['op'] == '=' and strip(strip(s0['e'])['lhs']).get('k') == 'Ref':
+                tname, tval = strip(strip(s0['e'])['lhs'])['name'], _unwrap_copy(strip(s0['e'])['rhs'])
+            if tname is None or s1['k'] != 'Expr' or s2['k'] != 'Expr':
+                continue
+            e1, e2 = strip(s1['e']), strip(s2['e'])
+            if not (e1.get('k') in ('Bin', 'Call') and e2.get('k') in ('Bin', 'Call')):
+                continue
+            a1 = _assign_parts(e1)
+            a2 = _assign_parts(e2)
+            if a1 is None or a2 is None:
+                continue
+            x, y, t = show(tval), show(a1[1]), show(a2[1])
+            if show(a1[0]) == x and show(a2[0]) == y and t == tname and x != y:
+                yield strip_casts(a1[0]), strip_casts(a2[0]), s0, [s0, s1, s2]
+
+
+def _unwrap_copy(e):
+    e = strip_casts(e)
+    while e.get('k') == 'Construct' and len([a for a in e.get('args', []) if a.get('k') != 'DefaultArg']) == 1:
+        e = strip_casts(e['args'][0])
+    return e
+
+
+def _assign_parts(e):
+    """(lhs, rhs) of an assignment written with the builtin `=` or an overloaded operator=."""
+    if e.get('k') == 'Bin' and e.get('op') == '=':
+        return strip_casts(e['lhs']), _unwrap_copy(e['rhs'])
+    if e.get('k') == 'Call' and e.get('kind') == 'op' and e.get('op') == '=' and len(e.get('args', [])) == 2:
+        return strip_casts(e['args'][0]), _unwrap_copy(e['args'][1])
+    if e.get('k') == 'Call' and e.get('kind') == 'op' and e.get('op') == '=' and e.get('obj') is not None and len(e.get('args', [])) == 1:
+        return strip_casts(e['obj']), _unwrap_copy(e['args'][0])
+    return None
+
+
+def loop_container(s):
+    """For a loop that visits every element of a container in order - a (canonicalised) range-based for or a counted
+    `for(i = 0; i < X.size(); i++)` - returns (container expression X, index variable name); else None."""
+    if s.get('k') != 'For' or s.get('init') is None or s.get('cond') is None or s.get('inc') is None:
+        return None
+    if s['init'].get('k') != 'Decl' or len(s['init']['decls']) != 1:
+        return None
+    d = s['init']['decls'][0]
+    i0 = strip_casts(d.get('init') or {})
+    if i0.get('k') != 'Lit' or i0.get('v') not in ('0', '0u', '0U', '0ul', '0UL'):
+        return None
+    c = strip(s['cond'])
+    if c.get('k') != 'Bin' or c.get('op') not in ('<', '!='):
+        return None
+    l, r = strip_casts(c['lhs']), strip_casts(c['rhs'])
+    if l.get('id') != d['id'] or r.get('k') != 'Call' or r.get('kind') != 'method' or (r.get('callee') or {}).get('name') != 'size':
+        return None
+    inc = strip(s['inc'])
+    unit = (inc.get('k') == 'Un' and inc.get('op') == '++' and strip(inc['e']).get('id') == d['id']) or \
+           (inc.get('k') == 'Bin' and inc.get('op') == '+=' and strip(inc['lhs']).get('id') == d['id'] and strip_casts(inc['rhs']).get('v') == '1')
+    if not unit:
+        return None
+    return strip_casts(r['obj']), d['name']
 
 
 def local_decls(fn):
